@@ -51,7 +51,7 @@ m = {
          "kind_free_text": "lsa-facts: rustc_private driver dumping MIR/consts/layouts/impls of /repo's working tree per configuration; lsa/rules: Python rule engine (CFG, provenance, edge facts, interprocedural typestate solver, call graph, dataflow) deciding per-property obligations"},
     ],
     "checks": checks,
-    "notes": "fix: commits in /repo: 06bb2c2 (F1), d107a1e (F2), 3518607 (F3), 6567ca9 (F4); see known_findings.json and DESIGN.md section 5. seeded/: 296 confirmed breaking changes and 238 behaviour-preserving patches the checks were run against (MATRIX.md, BENIGN.md; DESIGN.md 11.4).",
+    "notes": "fix: commits in /repo: 06bb2c2 (F1), d107a1e (F2), 3518607 (F3), 6567ca9 (F4); see known_findings.json and DESIGN.md section 5. seeded/: 300 confirmed breaking changes and 238 behaviour-preserving patches the checks were run against (MATRIX.md, BENIGN.md; DESIGN.md 11.4).",
     "not_applicable": na,
 }
 json.dump(m, open(os.path.join(VERIF, "MANIFEST.json"), "w"), indent=1)
